@@ -764,7 +764,7 @@ fn x_keyboard_run<S: ScancodeSet>(mut kb: Keyboard<RecordingLayout, S>, mut s: S
             }
         }
         1 => {
-            let w = arg & 0x7FF;
+            let w = arg; // the whole u16 domain: bits 11..15 are ignored by the frame stage, so the Keyboard must ignore them too
             let a = kb.add_word(w);
             let b = match p.add_word(w) {
                 Ok(byte) => s.advance_state(byte),
